@@ -14,6 +14,9 @@ CLAIMED = {
  "C07": ("acceptance-dominance (must-facts at the acceptance node on the CFG), data-flow rules for the accept digest / request construction, regex-AST anchoring check, interprocedural may-raise (exception-escape) analysis with taint and guard discharge",
          "Decides on all paths: every RFC 6455 section 4 obligation holds as a must-fact where the server hands the request to onConnect and where the client sets state = OPEN (17 + 10 obligations plus structural ones for token flags, duplicate detection, origin policy, extension handling), failHandshake always ends processing; the accept digest is SHA-1(key + RFC GUID) of the validated / sent key; origin patterns are anchored and matched against the whole origin; the server's answer is a subset of the offer; the client request is built from parse_url components; no exception caused by a risky library operation on peer-controlled data can leave the handshake entry points. Does not decide acceptance of exactly the HTTP grammar for arbitrary octets.",
          "3 C07"),
+ "C12": ("writer/reader table extraction and agreement over the AST (extension strings vs parse loops, 4 PMCE modules), guard facts at every stored wire value, role-mapping table check of (de)compressor set-up and factory methods, raise-site fact matching for offer/accept compatibility, constant agreement of the sync-flush tail, guard-dominance of RSV1/doNotCompress gating",
+         "Decides the negotiation and gating clauses on all paths: parameter names agree between writers and readers; every parse loop rejects repeated, unknown, non-integer and out-of-range parameters (9..15 for deflate); each direction is set up from the parameter family of the sending role and negated for raw deflate; factory methods bind offer/response/accept fields to the matching family; incompatible accepts raise; the sender strips exactly the 4-octet tail the receiver re-appends; RSV1 and the compressor are used only when an extension is active and doNotCompress is off, and decompression follows the RSV1 of the first frame. Does not decide losslessness of the compression libraries or context takeover across messages (run-time library state).",
+         "3 C12"),
  "C16": ("guard-dominance rules on CFG/must-facts (limit test extension, gate flag ordering, must-pass-through of the send-side test), API-pairing rule for bounded decompress",
          "Decides on all paths: the receive-side limit test is `0 < limit < size` (strict, 0 disables) on the running total, sits at frame begin before any payload octet is processed, fails with 1009; every buffer append / delivery is gated by `not failedByMe`; the send-side test dominates every frame write and compares the post-compression length; a bounded decompress() must inspect unconsumed_tail (one known finding: permessage-deflate truncates). Does not decide run-time interaction with fragment spreading.",
          "3 C16"),
